@@ -77,10 +77,12 @@ Print Assumptions C03_code_do_exit_code.
    (messages written and task executions, in order) are the concatenation, over a prefix of
    the task messages of the script, of  ACK(job,i,time,pid)  followed by nothing (the job
    was refused, or the loop was left while waiting for the SYN)  or by  RUN(job,i) and
-   exactly one READY(job,i,result);  and `completed` counts exactly the executed ones. *)
+   exactly one READY(job,i,result) -- the READY is missing only when a termination request
+   made the task's exception leave the loop (then this is the last block);  and `completed`
+   counts exactly the jobs executed to the end. *)
 Theorem C03_message_grammar : forall c ins, exists k,
     proto (w_events c ins) = flat_map (block c) (firstn k (tasks ins)) /\
-    w_completed c ins = Z.of_nat (length (filter (confirmed c) (firstn k (tasks ins)))).
+    w_completed c ins = Z.of_nat (length (filter (counted c) (firstn k (tasks ins)))).
 Proof. exact workloop_grammar. Qed.
 Print Assumptions C03_message_grammar.
 
@@ -94,7 +96,7 @@ Proof. exact workloop_monitor. Qed.
 Print Assumptions C03_monitor_accepts.
 
 Theorem C03_completed_counts_executions : forall c ins,
-    w_completed c ins = Z.of_nat (runs (w_events c ins)).
+    w_completed c ins + cut_short (w_exit c ins) = Z.of_nat (runs (w_events c ins)).
 Proof. exact workloop_completed_is_runs. Qed.
 Print Assumptions C03_completed_counts_executions.
 
@@ -168,6 +170,7 @@ Print Assumptions C03_return_failure_is_dead.
    encoding error for the same job; the job counts and the loop continues *)
 Theorem C03_unserialisable : forall c n q rest,
     guard (maxtasks c) n = true -> task_ok (q_ty q) = true -> confirmed c q = true ->
+    task_escapes q = None ->
     mem_exceeded (eff_maxmem c) (q_mem q) = false ->
     first_put_fails (q_beh q) = true ->
     loop c n (RMsg q :: rest) =
@@ -179,7 +182,43 @@ Theorem C03_unserialisable : forall c n q rest,
 Proof. exact unserialisable_step. Qed.
 Print Assumptions C03_unserialisable.
 
-(* exactly one READY per executed job whatever the task does (incl. BaseException, D2) *)
+(* termination request while the task runs (repair of D2): the exception leaves workloop
+   right after the execution started: no READY, not counted, no further job taken *)
+Theorem C03_terminated_step : forall c n q rest x,
+    guard (maxtasks c) n = true -> task_ok (q_ty q) = true -> confirmed c q = true ->
+    task_escapes q = Some x ->
+    loop c n (RMsg q :: rest) = (accept_events c q ++ [ERun (q_job q) (q_i q)], x, n).
+Proof. exact terminated_step. Qed.
+Print Assumptions C03_terminated_step.
+
+(* whole-run form (quoted by C08): for EVERY configuration, quota and input script, if
+   workloop is left by an exception of the task (the termination handler's SystemExit, or
+   any exception while common._should_have_exited is set), then the trace ENDS with that
+   job's ACK, its SYN polls and the start of its execution -- no READY for it, no further
+   poll of the job pipe -- and the job is a confirmed task message of the script whose
+   oracle says the exception escapes *)
+Theorem C03_termination_ends_trace : forall c ins n,
+    cut_short (xit (loop c n ins)) = 1 ->
+    exists l q, In (RMsg q) ins /\ confirmed c q = true /\
+                task_escapes q = Some (xit (loop c n ins)) /\
+                evs (loop c n ins) = l ++ accept_events c q ++ [ERun (q_job q) (q_i q)].
+Proof. exact termination_ends_trace. Qed.
+Print Assumptions C03_termination_ends_trace.
+
+Theorem C03_termination_not_counted : forall c ins n,
+    cut_short (xit (loop c n ins)) = 1 ->
+    cnt (loop c n ins) = n + Z.of_nat (runs (evs (loop c n ins))) - 1.
+Proof. exact termination_not_counted. Qed.
+Print Assumptions C03_termination_not_counted.
+
+(* ... and without a termination request nothing the task raises leaves the loop *)
+Theorem C03_no_termination_no_escape : forall q,
+    q_term q = false -> (forall code, q_beh q <> Terminated code) -> task_escapes q = None.
+Proof. exact no_termination_no_escape. Qed.
+Print Assumptions C03_no_termination_no_escape.
+
+(* exactly one READY per job executed to the end, whatever the task does (incl. a
+   BaseException raised by the task itself) *)
 Theorem C03_one_ready_per_execution : forall c q,
     puts (exec_events c q) = [ready_msg c q (final_res (q_beh q))] /\
     runs (exec_events c q) = 1%nat.
@@ -210,10 +249,12 @@ Proof. exact w_ensure_eq. Qed.
 Print Assumptions C03_ensure_gets_completed.
 
 (* process exit status (Worker.__call__ / _do_exit; also the DEATH message): with a quota,
-   EX_RECYCLE exactly when workloop returned EX_RECYCLE *)
+   EX_RECYCLE exactly when workloop returned EX_RECYCLE (or a termination handler called
+   sys.exit(EX_RECYCLE) itself) *)
 Theorem C03_exit_status_recycle : forall c N ins,
     maxtasks c = Some N -> 1 <= N ->
-    (call_status (w_exit c ins) = EX_RECYCLE <-> w_exit c ins = XReturn EX_RECYCLE).
+    (call_status (w_exit c ins) = EX_RECYCLE <->
+     (w_exit c ins = XReturn EX_RECYCLE \/ w_exit c ins = XTerminated EX_RECYCLE)).
 Proof. exact call_status_recycle. Qed.
 Print Assumptions C03_exit_status_recycle.
 
@@ -293,10 +334,11 @@ Print Assumptions C03_cancelled_job_not_run.
 (* ------------------------------------------------------------ non-vacuity *)
 Definition ex_cfg : cfg := mk_cfg (Some 2) (Some 9) 7 None 4242 (Some 100) (Some ([0; 1], 2)).
 Definition ex_job (j : Z) (b : beh) (answer : Z) (mem : Z) : rcv req :=
-  RMsg (mk_req TASK j None (100 + j) b [RTimeout; RMsg answer] mem).
+  RMsg (mk_req TASK j None (100 + j) b [RTimeout; RMsg answer] mem false).
 
-(* quota 2, handshake on: job 1 refused, job 2 unserialisable, job 3 raises SystemExit (D2:
-   reported as a failure, loop goes on), job 4 never taken; counter reaches 2 at the third poll *)
+(* quota 2, handshake on: job 1 refused, job 2 unserialisable, job 3 raises SystemExit itself
+   (no termination request: reported as a failure, loop goes on), job 4 never taken; counter
+   reaches 2 at the third poll *)
 Example C03_witness :
   workloop ex_cfg [RTimeout; ex_job 1 (Returns 5) NACK 0; ex_job 2 ReturnsUnser ACK 50;
                    ex_job 3 (RaisesBase 1) ACK 60; ex_job 4 (Returns 1) ACK 0; RShutdown] =
@@ -330,3 +372,15 @@ Example C03_parent_witness :
   [OTimeoutSet; OCbAccept 4242 102; OSendAck ACK 4242 9; OAcked; OCancelled;
    OTimeoutCancel; OCbError (-1); OReadied].
 Proof. vm_compute. repeat split; reflexivity. Qed.
+
+(* termination request inside job 2 (signal 15: sys.exit(-241)): ACK, execution, then the
+   SystemExit leaves the loop; job 3 is never taken; the process exits with that status *)
+Example C03_termination_witness :
+  workloop ex_cfg [ex_job 1 (Returns 5) ACK 0; ex_job 2 (Terminated (-241)) ACK 0;
+                   ex_job 3 (Returns 1) ACK 0] =
+  ([EInq; ENow; EPut (mk_msg ACK 1 None (PAckP 101 4242 (Some 9))); ESyn; ESyn;
+    ERun 1 None; EPut (mk_msg READY 1 None (PReadyP (ROk 5) 7)); EMem;
+    EInq; ENow; EPut (mk_msg ACK 2 None (PAckP 102 4242 (Some 9))); ESyn; ESyn; ERun 2 None],
+   XTerminated (-241), 1, (true, 2%nat, 1%nat))
+  /\ call_status (XTerminated (-241)) = -241.
+Proof. vm_compute. split; reflexivity. Qed.
